@@ -122,7 +122,7 @@ class C09(Prop):
                 # window 0 in random chains too
                 pipe = self._zero_window(pipe)
             mode = "mixed" if i % 2 else "fifo"
-            evs = tg.events(rng, rng.randint(4, 16), hot=True, mode=mode, unsub_p=0.03)
+            evs = tg.events(rng, tg.hist_len(rng, 4, 16), hot=True, mode=mode, unsub_p=0.03)
             out.append(Case("time", rng.choice(["local", "threads"]), [("pipe", [pipe])], evs, {"kind": mode}))
         # sample (sampler = second hot subject)
         for _ in range(1500 if tier == "quick" else 15000):
